@@ -63,6 +63,8 @@ def fn_doc(rng):
             if k not in keys:
                 keys.append(k)
             lines.append("wrapped [^%s] ref and [^%s] again" % (k.replace(" ", "\n", 1), k)); lines.append("")
+            if rng.random() < 0.8:
+                lines.append("[^%s]: the wrapped note" % k); lines.append(""); defined.append(k)
         elif r < 0.80:
             lines.append("> [^%s]: quoted definition" % rng.choice(keys)); lines.append("")
         elif r < 0.86:
@@ -197,7 +199,7 @@ def html_oracle(ctx, docs):
             defined_keys = set((st_.env.get("ref_footnotes") or {}).keys())
         except Exception:
             pass
-        left = [k for k in re.findall(r"\[\^([^\]\n]+)\]", _h.unescape(body_html)) if unikey(k) in defined_keys]
+        left = [k for k in re.findall(r"\[\^([^\]]+)\]", _h.unescape(body_html)) if unikey(k) in defined_keys]
         if left:
             ctx.fail("defined-reference-literal", "references %r to defined notes are left as literal text in %r" % (left, doc), rep); continue
         # token-list output carries the same notes
